@@ -30,7 +30,7 @@ def _heartbeat_task(ctx):
 
 def r1_writers(ctx):
     n = 0
-    for key, body in ctx.P.bodies.items():
+    for key, body in ctx.P.scan():
         if not key.startswith("session::session::"):
             continue
         if not any((c.norm or "").endswith("Mutex::lock") for c in body.calls()):
@@ -69,7 +69,7 @@ def r1_writers(ctx):
         ctx.ob("R14.1", "last_received:type", okty, "", "last_received: Mutex<Instant> (always has a reference point)" if okty else
                "last_received is %s: without a reference instant from creation the monitor cannot time out a peer that never answers" % (f[0]["ty"]["s"] if f else "missing"))
     init_ok = False
-    for key, body in ctx.P.bodies.items():
+    for key, body in ctx.P.scan():
         if not key.startswith(S + "new_client"):
             continue
         o = ctx.origins(body)
@@ -113,11 +113,11 @@ def r3_monitor(ctx):
         return
     ctx.bodies_touched.add(hb.name)
     cfg, conds, o = ctx.cfg(hb), ctx.conds(hb), ctx.origins(hb)
-    gt = [c for c in conds.all() if c.kind == "bool" and is_call_term(c.term, "PartialOrd::gt", "PartialOrd>::gt", "PartialOrd::ge") and any("timeout" in (s[1] if isinstance(s, tuple) and s[0] == "var" else "") for s in subterms(c.term))]
+    gt = [c for c in conds.all() if c.kind == "bool" and is_call_term(c.term, "PartialOrd::lt", "PartialOrd>::lt", "PartialOrd::le") and any("timeout" in (s[1] if isinstance(s, tuple) and s[0] == "var" else "") for s in subterms(c.term))]
     if not ctx.floor("R14.3", "give-up comparison in the heartbeat task", len(gt), 1):
         return
     t = gt[0].term
-    lhs, rhs = t[3][0], t[3][1]
+    rhs, lhs = t[3][0], t[3][1]   # canonical form: timeout < elapsed
     direct = is_call_term(lhs, "Instant::saturating_duration_since", "Instant::duration_since", "Instant::elapsed") and any(is_call_term(s, "Instant::now") for s in subterms(lhs)) and \
         any(is_call_term(s, "Mutex::<T>::lock") and "last_received" in fmt(s) for s in subterms(lhs)) and not any(is_call_term(s, "::unwrap_or", "::unwrap_or_default", "::unwrap_or_else", "::map") for s in subterms(lhs))
     ctx.ob("R14.3", "monitor:elapsed-is-now-minus-last-response", direct, "src/session/session.rs:%s" % hb.blocks[gt[0].block]["tspan"]["line"],
@@ -151,7 +151,7 @@ def r3_monitor(ctx):
     # R14.4: threshold vs period
     dep_on_interval = "interval" in fmt(rhs)
     validated = False
-    for key, body in ctx.P.bodies.items():
+    for key, body in ctx.P.scan():
         if key.startswith(("client::client::Client::", "anytls_client::", "session::session::Session::new_client", "client::session_pool::SessionPool::with_config")):
             cs = ctx.conds(body)
             for c in cs.all():
